@@ -213,12 +213,25 @@ func (s *Spec) Lox() string {
 	if len(s.Externals) > 0 {
 		b.WriteString("@external " + strings.Join(s.Externals, " ") + "\n")
 	}
-	for _, m := range s.Macros {
-		fmt.Fprintf(&b, "@macro %s = %s\n", m.Name, m.E.Text(true))
+	writeMacros := func() {
+		for _, m := range s.Macros {
+			fmt.Fprintf(&b, "@macro %s = %s\n", m.Name, m.E.Text(true))
+		}
+	}
+	// style bit 8: the macros are declared after the k-th rule of the default mode (k = Style>>4),
+	// i.e. after rules that already use them and before further rules; otherwise at the top
+	macrosAfter := -1
+	if s.Style&8 != 0 && len(s.Macros) > 0 {
+		macrosAfter = 1 + (s.Style>>4)%len(s.Modes[0].Rules)
+	} else {
+		writeMacros()
 	}
 	writeMode := func(m *Mode, indent string) {
-		for _, r := range m.Rules {
+		for i, r := range m.Rules {
 			b.WriteString(indent + r.Text() + "\n")
+			if m == s.Modes[0] && i+1 == macrosAfter {
+				writeMacros()
+			}
 		}
 	}
 	// named modes may come before or after the default-mode rules
